@@ -198,8 +198,26 @@ ASSUMPTIONS = [
 ]
 
 
+def node_level(tier, out, cov):
+    """Node level: an address with an open handshake and no established peer (peer timed out, re-dial pending) receives
+    datagrams sealed for the previous connection and forged unsealed payload: nothing may reach the interface
+    (Trace_NodeRuns.NodeFamOK)."""
+    from checks import noderuns
+    tp = os.path.join(V.workdir(PID), "nodefam.ndjson")
+    s = V.harness_json(["node", "fam", "c02", tier, tp])
+
+    def classify(e):
+        what = "panic" if e.get("panics") else ("delivered-or-state" if e.get("bad_other") else "other")
+        return "envelope|node|%s|%s|%s" % (e.get("state"), e.get("family"), what)
+    ok = noderuns.validate_records(PID, out, tp, classify, "C02 node-level families")
+    cov["traces_validated_against_impl"] = cov.get("traces_validated_against_impl", 0) + ok
+    cov["evaluations"] = cov.get("evaluations", 0) + s["steps"]
+    cov["node_level"] = {"records": s["events"], "members": s["steps"]}
+
+
 def run(tier, out):
     cov = object_level(tier, out)
+    node_level(tier, out, cov)
     return out.finish("model_checking", cov, assumptions=ASSUMPTIONS)
 
 
